@@ -313,9 +313,34 @@ fn render_q(q: &Query) -> Option<String> {
     Some(format!("(S {} {} {} [{}] {{{}}})", (q.qualifier() == QueryQualifier::Optional) as u8, ty, q.name().map(|n| hex(n)).unwrap_or_else(|| "~".into()), cs.join("; "), subs.join(" ")))
 }
 
+/// canonical rendering of an ADD or DELETE query (StamModel/StamqlA.lean)
+fn render_mut(q: &Query) -> Option<String> {
+    if q.attributes().next().is_some() || q.resulttype() != Some(Type::Annotation) { return None; }
+    let name = q.name().map(|n| hex(n)).unwrap_or_else(|| "~".into());
+    let mut subs = vec![];
+    for sq in q.subqueries() { subs.push(render_q(sq)?); }
+    match q.querytype() {
+        QueryType::Delete => Some(format!("(D {} {{{}}})", name, subs.join(" "))),
+        QueryType::Add => {
+            let mut asgs = vec![];
+            for a in q.assignments() {
+                asgs.push(match a {
+                    Assignment::Id(s) => format!("id:{}", hex(s)),
+                    Assignment::Data { set, key, value } => format!("data:{}:{}:{}", hex(set), hex(key), match value { DataValue::Null => "n".to_string(), DataValue::Bool(b) => format!("b{}", *b as u8), DataValue::Int(i) => format!("i{}", i), DataValue::Float(f) => format!("f{:?}", f), DataValue::String(s) => format!("s{}", hex(s)), _ => return None }),
+                    Assignment::Target { name, offset } => format!("target:{}:{}", hex(name), show_off(offset)),
+                    Assignment::ComplexTarget(k) => format!("complex:{}", match k { SelectorKind::CompositeSelector => "composite", SelectorKind::MultiSelector => "multi", SelectorKind::DirectionalSelector => "directional", _ => return None }),
+                    _ => return None,
+                });
+            }
+            Some(format!("(A {} [{}] {{{}}})", name, asgs.join("; "), subs.join(" ")))
+        }
+        _ => None,
+    }
+}
+
 /// `ql q <hex text> <bad regexes>`: `Query::parse` on the text (structure, remainder), and `to_string` of what it parsed
 fn q_exec(text: &str) -> String {
-    match guarded(std::panic::AssertUnwindSafe(|| Query::parse(text).map(|(q, r)| (render_q(&q), r.to_string(), q.to_string().ok())).map_err(|e| format!("{}", e)))) {
+    match guarded(std::panic::AssertUnwindSafe(|| Query::parse(text).map(|(q, r)| (if q.querytype() == QueryType::Select { render_q(&q) } else { render_mut(&q) }, r.to_string(), if q.querytype() == QueryType::Select { q.to_string().ok() } else { None })).map_err(|e| format!("{}", e)))) {
         Err(m) => format!("panic:{}", m.chars().take(60).collect::<String>()),
         Ok(Err(_)) => "err".into(),
         Ok(Ok((None, _, _))) => "unmodelled".into(),
@@ -352,6 +377,7 @@ pub fn query_model_stream(rep: &mut Report, g: &mut QGen, n: usize) {
         let bad = match model_safe(text) { Some(b) => b, None => { rep.count("q:not-sent"); return; } };
         let a = q_exec(text);
         rep.count(&format!("q:{}:{}", class, a.split(' ').next().unwrap_or("?")));
+        if class == "add" && a == "err" && std::env::var("VERIF_DEBUG").is_ok() { eprintln!("ADD-ERR {:?} -> {:?}", text, Query::parse(text).map(|_| ()).map_err(|e| format!("{}", e))); }
         let line = format!("ql q {} {}", hex(text), bad);
         rep.model_case(vec![line], vec![a], "query");
     };
@@ -363,6 +389,35 @@ pub fn query_model_stream(rep: &mut Report, g: &mut QGen, n: usize) {
         for _ in 0..2 { let m = g.mutate(&s0); send(rep, &m, "damaged"); }
         let s1 = g.query();
         send(rep, &s1, "any");
+        // ADD and DELETE queries (StamModel/StamqlA.lean): every assignment kind, around a sub-query of the modelled kinds
+        let sub = g.select_modelled(1);
+        let mut asgs: Vec<String> = vec![];
+        for _ in 0..g.rng.below(5) {
+            asgs.push(match if g.rng.chance(88) { *g.rng.pick(&[0usize, 1, 2, 3, 4, 6, 10, 11, 12]) } else { g.rng.below(9) } {
+                10 => format!("ID {}", *g.rng.pick(&["\"new\"", "new"])),
+                11 => format!("DATA \"s\" \"k\" {}", *g.rng.pick(&["5", "-3", "2.5", "\"v\"", "v", "true", "false", "null"])),
+                12 => format!("TARGET ?a OFFSET {} {}", *g.rng.pick(&["0", "1", "-3", "WHOLE"]), *g.rng.pick(&["5", "-1", "-0", ""])),
+                0 => format!("ID {}", *g.rng.pick(&["\"new\"", "new", "\"a b\"", "\"\""])),
+                1 => format!("DATA \"s\" \"k\" {}", *g.rng.pick(&["5", "-3", "2.5", "\"v\"", "v", "true", "false", "null", "a|b", "2024-01-01T00:00:00+00:00", "9999999999999999999999", ""])),
+                2 => "DATA \"s\" \"k\"".to_string(),
+                3 => format!("TARGET ?{}", *g.rng.pick(&["a", "x", "b"])),
+                4 => format!("TARGET ?a OFFSET {} {}", *g.rng.pick(&["0", "1", "-3", "WHOLE", "ALL", "x"]), *g.rng.pick(&["5", "-1", "-0", "", "y"])),
+                5 => "TARGET".to_string(),
+                6 => format!("{} ", *g.rng.pick(&["COMPOSITE", "MULTI", "DIRECTIONAL"])),
+                7 => (*g.rng.pick(&["COMPOSITE", "MULTI", "DIRECTIONAL"])).to_string(),
+                _ => (*g.rng.pick(&["TEXT \"x\"", "SELECT", "WITH", "id \"x\""])).to_string(),
+            });
+        }
+        let name = *g.rng.pick(&["?n ", "", "?new ", "?n ", "?x ", "?n; "]);
+        let with = if asgs.is_empty() { *g.rng.pick(&["", "WITH "]) } else { *g.rng.pick(&["WITH ", "WITH ", "WITH ", "", "with "]) };
+        let body = if asgs.is_empty() && g.rng.chance(80) { String::new() } else { format!("{};", asgs.join("; ")) };
+        let with = if asgs.is_empty() && body.is_empty() { "" } else { with };
+        let add = format!("ADD {} {}{}{}{}{{ {} }}", *g.rng.pick(&["ANNOTATION", "ANNOTATION", "ANNOTATION", "ANNOTATION", "annotation", "DATA"]), name, with, body, *g.rng.pick(&[" ", "", "\n"]), sub);
+        send(rep, &add, "add");
+        let m = g.mutate(&add); send(rep, &m, "add-damaged");
+        let del = format!("DELETE {} {}{}{{ {} }}", *g.rng.pick(&["ANNOTATION", "ANNOTATION", "annotation", "TEXT"]), name, *g.rng.pick(&["", " ", "\n"]), sub);
+        send(rep, &del, "delete");
+        let m = g.mutate(&del); send(rep, &m, "delete-damaged");
     }
 }
 
